@@ -263,6 +263,10 @@ func runE2E(op string, rep *hx.Report) string {
 			hello = p
 		}
 	}
+	if calls, _ := strconv.Atoi(kvGet(ws, "calls")); calls > 0 {
+		age, _ := strconv.Atoi(kvGet(ws, "age"))
+		return runLongLived(op, rep, rig, ep, hello, mode, calls, age)
+	}
 	if idle, _ := strconv.Atoi(kvGet(ws, "idle")); idle > 0 {
 		return runIdle(op, rep, rig, ep, hello, mode, idle, up, down, seed)
 	}
@@ -418,6 +422,120 @@ func runE2E(op string, rep *hx.Report) string {
 	}
 	hx.WithTimeout(10*time.Second, wg.Wait)
 	return fmt.Sprintf("ok up=%d down=%d", len(got), len(clGot))
+}
+
+// runLongLived: connection A is opened and left idle; connection B then receives `calls` bytes that the
+// application writes one at a time (in the multiplexed mode each is a call of its own on the shared
+// transport); after that, and after `age` seconds of silence, both connections must still carry bytes
+// faithfully in both directions.  Nothing about a connection may depend on how much the tunnel has
+// been used or on how old the connection is.
+func runLongLived(op string, rep *hx.Report, rig *snix.Rig, ep *sniproxy.Endpoint, hello []byte, mode string, calls, age int) string {
+	fail := func(key, desc string) { rep.Fail(key+":"+mode, desc, []string{op}) }
+	type side struct {
+		c   net.Conn
+		idx int
+	}
+	apps := make(chan side, 4)
+	go func() {
+		for {
+			c, err := ep.Accept()
+			if err != nil {
+				return
+			}
+			go func() {
+				c.SetDeadline(time.Now().Add(120 * time.Second))
+				hb := make([]byte, len(hello)+1)
+				if _, err := io.ReadFull(c, hb); err != nil || !bytes.Equal(hb[:len(hello)], hello) {
+					c.Close()
+					return
+				}
+				apps <- side{c, int(hb[len(hello)])}
+			}()
+		}
+	}()
+	open := func(i int) (net.Conn, net.Conn, bool) {
+		cl, err := net.Dial("tcp", rig.Lis.Addr().String())
+		if err != nil {
+			return nil, nil, false
+		}
+		cl.SetDeadline(time.Now().Add(120 * time.Second))
+		cl.Write(hello)
+		cl.Write([]byte{byte(i)})
+		select {
+		case a := <-apps:
+			if a.idx != i {
+				fail("up-stream-altered", "the index byte after the ClientHello is another connection's")
+				return cl, a.c, false
+			}
+			return cl, a.c, true
+		case <-time.After(15 * time.Second):
+			fail("up-stream-incomplete", fmt.Sprintf("the ClientHello of connection %d did not reach the application within 15 s", i))
+			return cl, nil, false
+		}
+	}
+	clA, appA, ok := open(0)
+	if clA != nil {
+		defer clA.Close()
+	}
+	if appA != nil {
+		defer appA.Close()
+	}
+	if !ok {
+		return "failed"
+	}
+	clB, appB, ok := open(1)
+	if clB != nil {
+		defer clB.Close()
+	}
+	if appB != nil {
+		defer appB.Close()
+	}
+	if !ok {
+		return "failed"
+	}
+	// the application trickles: one byte per write
+	go func() {
+		for i := 0; i < calls; i++ {
+			if _, err := appB.Write([]byte{byte(i*7 + i>>8)}); err != nil {
+				return
+			}
+		}
+	}()
+	got := make([]byte, calls)
+	if n, err := io.ReadFull(clB, got); err != nil {
+		fail("down-stream-incomplete", fmt.Sprintf("a connection that receives %d single-byte writes got %d bytes: %v", calls, n, err))
+		return "failed"
+	}
+	for i := range got {
+		if got[i] != byte(i*7+i>>8) {
+			fail("down-stream-altered", fmt.Sprintf("byte %d of %d single-byte writes arrived altered", i, calls))
+			return "failed"
+		}
+	}
+	if age > 0 {
+		time.Sleep(time.Duration(age) * time.Second)
+	}
+	// both connections, the idle one first, still work in both directions
+	for k, p := range []struct {
+		cl, app net.Conn
+		name    string
+	}{{clA, appA, "the connection that stayed idle meanwhile"}, {clB, appB, "the busy connection"}} {
+		msg := []byte(fmt.Sprintf("after-%d-calls-and-%d-seconds-%d", calls, age, k))
+		p.cl.Write(msg)
+		buf := make([]byte, len(msg))
+		p.app.SetReadDeadline(time.Now().Add(10 * time.Second))
+		if n, err := io.ReadFull(p.app, buf); err != nil || !bytes.Equal(buf, msg) {
+			fail("up-stream-incomplete", fmt.Sprintf("after %d calls on the tunnel and %d s, %s delivered %d of %d bytes upstream (%v)", calls, age, p.name, n, len(msg), err))
+			return "failed"
+		}
+		p.app.Write(msg)
+		p.cl.SetReadDeadline(time.Now().Add(10 * time.Second))
+		if n, err := io.ReadFull(p.cl, buf); err != nil || !bytes.Equal(buf, msg) {
+			fail("down-stream-incomplete", fmt.Sprintf("after %d calls on the tunnel and %d s, %s delivered %d of %d bytes downstream (%v)", calls, age, p.name, n, len(msg), err))
+			return "failed"
+		}
+	}
+	return fmt.Sprintf("ok calls=%d age=%d", calls, age)
 }
 
 // runIdle opens `idle` front connections one after the other, each of which delivers its ClientHello
@@ -751,6 +869,12 @@ func main() {
 		ops = append(ops, fmt.Sprintf("e2e mode=legacy up=%d down=%d seed=%d close=client par=%d", 20000, 30000, r.U64()%100000, 40))
 		for _, mode := range []string{"legacy", "siding"} {
 			ops = append(ops, fmt.Sprintf("e2e mode=%s up=%d down=%d seed=%d close=client idle=%d", mode, 70000, 90000, r.U64()%100000, 40))
+		}
+		// a tunnel that has served more than 2^16 calls, and connections older than any plausible timeout constant
+		ops = append(ops, "e2e mode=legacy up=0 down=0 seed=1 close=client calls=70000 age=6")
+		ops = append(ops, "e2e mode=siding up=0 down=0 seed=1 close=client calls=5000 age=6")
+		if f.Thorough() {
+			ops = append(ops, "e2e mode=legacy up=0 down=0 seed=1 close=client calls=300000 age=35")
 		}
 		if f.Thorough() {
 			ops = append(ops, fmt.Sprintf("e2e mode=legacy up=%d down=%d seed=%d close=client idle=%d", 70000, 90000, r.U64()%100000, 200))
